@@ -79,6 +79,16 @@ def corr_cases(ctx):
     for text in G.SEED_DYNAMIC:
         for backend in ("docutils", "sphinx"):
             yield "dyn-seed", {"text": text, "mode": "myst", "exts": dyn_exts, "backend": backend}
+    # every directive that reaches a node-building method of MyST's mocks (MockState.block_quote, nest_line_block_lines,
+    # build_table, inline_text, parse_target, nested_parse ...), with structured bodies (round 3)
+    for b in G.DIRECTIVE_BLOCKS + G.COLON_BLOCKS:
+        for backend in ("docutils", "sphinx"):
+            yield "dyn-seed", {"text": "para\n\n" + b + "\n\nafter\n", "mode": "myst", "exts": dyn_exts, "backend": backend}
+    for w in S.ALL_WITNESSES[len(S.FIXED_WITNESSES):]:
+        c = S.normalise_case(dict(w))
+        yield "dyn-struct", {"text": c["text"], "mode": c["mode"],
+                             "exts": [e for e in c["exts"] if e in L.STATIC_EXTS or e in G.DYN_EXTS],
+                             "backend": c["backend"], "kw": dict(c.get("kw") or {})}
     for i in range(ctx.budget(250, 2000, 2000)):
         exts = [e for e in L.STATIC_EXTS if rng.random() < 0.6] + [e for e in G.DYN_EXTS if rng.random() < 0.8]
         backend = "sphinx" if rng.random() < 0.4 else "docutils"
@@ -206,7 +216,8 @@ LEVEL_TEXT = ("Proof (Coq, all theorems closed under the global context) on the 
               "registry interface Api.api and the invariant IdsProofs.ids_inv (C03_ids_unique; set_id fresh: C03_ids_unique_partial), "
               "refuted for Sphinx' preset math ids; refid values resolve for the reference kinds the renderer creates - footnote "
               "references and '#anchor' links - as corollaries of the C11 / C09 models of the two transforms that write refids "
-              "(C03_refids_resolve_footnotes, C03_refids_resolve_anchors, C03_refids_dangle_only_reported). Tie: Gen/Render.v + "
+              "(C03_refids_resolve_footnotes, C03_refids_resolve_anchors, C03_refids_dangle_only_reported). Tie: Gen/Render.v, the "
+              "source translation Gen/RenderSrc.v of the straight-line render methods with C03_single_occurrence_src, and "
               "differential correspondence directly after parsing and after the modelled transforms (tree, ids, names, refids, backrefs, "
               "warnings) on every run; label-first / refids / ids are evaluated (extracted) on every transformed model document; the "
               "walker of the search checks every clause on the implementation after parsing and after the full docutils / Sphinx "
@@ -215,6 +226,9 @@ LEVEL_NOTE = ("Trusted: Coq kernel; transcriptions of base.py/sphinx_.py/transfo
               "(correspondence-checked); the C11 / C09 builders' models Refs/Foot.v, Refs/Anchors.v for the refid corollaries; parent "
               "pointers and the full transform pipelines are checked on the implementation only. Not proved on the tree model: "
               "footnote-label-first and refid resolution after the transforms (measured on every transformed model document + search); "
-              "ids after the transforms. Open findings (13): transition:inside-container, ids:duplicate:math-label+math-label, "
+              "ids after the transforms. Open findings (35 signatures): transition:inside-container, ids:duplicate:math-label+math-label, "
               "ids:duplicate:math-label+other, ids:duplicate:toc-copy, four {eval-rst} signatures, HandleCodeBlocks, "
-              "refid:dangling:node-removed:DocInfo / :Contents, two docinfo-stripped.")
+              "refid:dangling:node-removed:DocInfo / :Contents, two docinfo-stripped, and (round 3, all inherited from docutils / "
+              "Sphinx directives) refid|backref:dangling:dropped-by:directive:<name> (15), node-removed:OnlyNodeTransform (2), "
+              "backref node-removed:Contents, Contents:detached-startnode, three uncaught exceptions of directives whose content "
+              "parses to no node (Figure.run, container_wrapper) or is empty (ProductionList.run).")
